@@ -406,7 +406,7 @@ def check(index, ctx):
     # ------------------------------------------------------------------------------------------------ R5
     for mname in MUTATORS:
         target = td.aliases.get(mname)
-        fn = td.methods.get(mname) or (td.methods.get(target) if target else None)
+        fn = td.methods.get(mname) or (td.methods.get(target) if target else None) or (td.module.functions.get(target) if target else None)  # (a module-level function bound in the class body)
         if fn is None:
             ctx.violated("R5", f"TensorDict.{mname}", f"TensorDict does not rebind `{mname}`: item assignment/deletion/update/pop/clear would mutate the dictionary", td.loc())
             continue
@@ -506,9 +506,17 @@ def check(index, ctx):
     emp = index.find_class(f"{T}.tensor_dict.EmptyTensorDict")
     if emp is not None and "__init__" in emp.methods:
         f = emp.methods["__init__"]
-        ec = cfg_of(f.node)
-        raises = [n for n in ec.stmt_nodes() if isinstance(n.ast, ast.Raise) and "ValueError" in norm_text(n.ast)]
-        guard_ok = any("len(" in norm_text(t.ast.test) and "!= 0" in norm_text(t.ast.test) or "len(" in norm_text(t.ast.test) and "> 0" in norm_text(t.ast.test) for n in raises for t, lbl in ec.guards_of(n) if t.kind == "test")
+        # the rejection may sit in __init__ or in a method of the class that __init__ calls (e.g. an override of the dictionary-level hook)
+        called = [emp.methods[x.func.attr] for x in ast.walk(f.node) if isinstance(x, ast.Call) and isinstance(x.func, ast.Attribute) and isinstance(x.func.value, ast.Name)
+                  and x.func.value.id in ("self", "cls", emp.name) and x.func.attr in emp.methods and x.func.attr != "__init__"]
+        raises, guard_ok = [], False
+        for g_ in [f] + called:
+            ec = cfg_of(g_.node)
+            rs_ = [n for n in ec.stmt_nodes() if isinstance(n.ast, ast.Raise) and "ValueError" in norm_text(n.ast)]
+            raises += rs_
+            guard_ok = guard_ok or any(("len(" in norm_text(t.ast.test) and ("!= 0" in norm_text(t.ast.test) or "> 0" in norm_text(t.ast.test))) or
+                                       (isinstance(t.ast.test, ast.Name) and lbl in ("True", True))  # `if tensor_dict:` truthiness of the mapping
+                                       for n in rs_ for t, lbl in ec.guards_of(n) if t.kind == "test")
         reaches_super = any(isinstance(x, ast.Call) and norm_text(x.func) == "super().__init__" for x in ast.walk(f.node))
         ctx.require(bool(raises) and guard_ok and reaches_super, "R6", "EmptyTensorDict.__init__", "rejects non-empty input and delegates to TensorDict.__init__",
                     "EmptyTensorDict does not reject a non-empty mapping with ValueError / does not reach TensorDict.__init__", f.loc())
